@@ -513,8 +513,49 @@ def check_C04(tier, seed, rest):
             if m["accepted"]:
                 v.append({"key": "%s:nonutf8-accepted" % m["id"], "what": "str-mode definition accepted although pattern(s) %s can match invalid UTF-8" % sorted(bad[m["idx"]]),
                           "definition": m["src"], "witness_block_paths": bad[m["idx"]], "blocks": m["blocks"]})
-    finish("C04", tier, seed, "model_checking", b_coverage(b, t, {"refutf8_states": res["distinct"], "str_definitions": len(str_ids),
-           "str_definitions_with_non_utf8_pattern_all_rejected": n_non,
+    if n_non == 0:
+        raise ToolError("RefUtf8.tla flagged no str-mode definition of the corpus as matching invalid UTF-8 (the corpus contains such definitions: vacuous check)")
+    # "... none of its patterns OR SUBPATTERNS": every subpattern on its own.  For each str-mode definition with subpatterns a
+    # twin definition (utf8 = false, so that the derive's own UTF-8 check is out of the way) has one pattern `(?&name)` per
+    # subpattern; RefUtf8.tla explores the reference automata of the twin; a subpattern that can match invalid UTF-8 while
+    # the str-mode definition was accepted is a violation - also when the subpattern is never used, or when every pattern
+    # that uses it completes it to valid UTF-8.
+    mk, rx = corpus.mk, corpus.rx
+    sub_defs = [mk("subnu0", [rx("[a-z]+")], subs=[("lead", r"(?-u:\xC3)")]),
+                mk("subnu1", [rx(r"(?&lead)(?-u:\xA9)"), rx("[a-z]+")], subs=[("lead", r"(?-u:\xC3)")]),
+                mk("subnu2", [rx("[a-z]+")], subs=[("any", r"(?s-u:.)")]),
+                mk("subnu3", [rx(r"x(?&w)")], subs=[("w", "[a-z]+"), ("t", r"(?&w)(?-u:[\x80-\xBF])")]),
+                mk("subnu4", [rx(r"(?&e)+"), rx("[0-9]")], subs=[("e", r"\xC3(?-u:\xA9)")]),
+                mk("subok0", [rx(r"x(?&w)")], subs=[("w", "\u00e9+")]),
+                mk("subok1", [rx(r"(?&d)+")], subs=[("d", r"(?-u:[0-9])")])]
+    sub_defs += [d for d in defs if d["utf8"] and d["subs"]]
+    twins = [{"id": d["id"] + "__subs", "utf8": False, "subs": d["subs"], "skips": [], "tags": [],
+              "vars": [{"attrs": [rx("(?&%s)" % sp["name"], prio=k + 1)]} for k, sp in enumerate(d["subs"])]} for d in sub_defs]
+    sp_path, sp_metas, _ = capture(sub_defs + twins, "subutf8")
+    res_s = run_tlc("RefUtf8.tla", "RefUtf8.cfg", {"DEFS": sp_path}, workers=8, metaname="refutf8sub")
+    bad_s = {}
+    for tag, sub, rec in tlc_records(res_s):
+        if tag == "NONUTF8":
+            bad_s.setdefault(rec["d"], {}).setdefault(rec["leaf"], rec["path"])
+    sp_tla = [json.loads(l) for l in open(sp_path)]
+    by_id = {m["id"]: (m, td) for m, td in zip(sp_metas, sp_tla)}
+    n_sub_checked = n_sub_non = 0
+    for d in sub_defs:
+        m, _td = by_id[d["id"]]
+        tm, ttd = by_id[d["id"] + "__subs"]
+        if not ttd["refsOk"]:
+            continue
+        n_sub_checked += 1
+        if tm["idx"] in bad_s:
+            n_sub_non += 1
+            names = [d["subs"][l - 1]["name"] for l in sorted(bad_s[tm["idx"]])]
+            if m["accepted"]:
+                v.append({"key": "%s:nonutf8-subpattern-accepted" % d["id"], "what": "str-mode definition accepted although subpattern(s) %s can match invalid UTF-8" % names,
+                          "definition": m["src"], "witness_block_paths": bad_s[tm["idx"]], "blocks": tm["blocks"]})
+    if not all(by_id[i + "__subs"][0]["idx"] in bad_s for i in ("subnu0", "subnu1", "subnu2", "subnu3", "subnu4")) or any(by_id[i + "__subs"][0]["idx"] in bad_s for i in ("subok0", "subok1")):
+        raise ToolError("RefUtf8.tla on subpattern twins: the definitions written to have (not to have) a subpattern matching invalid UTF-8 are not classified as such: %s" % sorted(bad_s))
+    finish("C04", tier, seed, "model_checking", b_coverage(b, t, {"refutf8_states": res["distinct"] + res_s["distinct"], "str_definitions": len(str_ids),
+           "str_definitions_with_non_utf8_pattern_all_rejected": n_non, "str_definitions_with_subpatterns_checked": n_sub_checked, "of_which_with_a_non_utf8_subpattern": n_sub_non,
            "spec_properties": "Boundaries (LexSpec invariant), T-utf8 (Attempt invariant), Utf8Only (RefUtf8), endb = RoundUp and boundary conjuncts of LexTrace; driver compares slice()/remainder() with source[span] after every call in all builds"}),
            v, t0, ASSUME_B)
 
@@ -752,6 +793,8 @@ def check_C12(tier, seed, rest):
             v.append({"key": "%s:nonutf8-accepted" % m["id"], "what": "pattern matching invalid UTF-8 accepted in str mode", "definition": m["src"]})
         if m["idx"] in bad and not m["utf8"]:
             n_b += 1
+    if not bad:
+        raise ToolError("RefUtf8.tla flagged no pattern of the corpus as matching invalid UTF-8 (the corpus contains such patterns: vacuous check)")
     cov = b_coverage(b, None, {"mode_pairs": ex.get("mode_pairs_compared", 0), "modes_tlc": ex.get("modes"), "byte_mode_definitions_with_non_utf8_patterns": n_b,
                                "spec_properties": "Modes.SameInBothModes (same Ok items, same error bytes) over all enumerated valid UTF-8 inputs; both variants replayed against LexSpec; real str output compared with real byte-mode output"})
     if ex.get("modes"):
